@@ -34,6 +34,7 @@ func cmdFunc(args []string) {
 	verif := fs.String("verif", "/verif", "")
 	dump := fs.String("dump", "", "write failing queries to this dir")
 	verbose := fs.Bool("v", false, "")
+	dumpAll := fs.String("dumpq", "", "write the query of the obligation whose name contains this to /tmp/hvdump/q.smt2")
 	mut := fs.String("mut", "", "apply mutant <prop>:<name> from /verif/mutants (in memory)")
 	tmo := fs.Int("t", 10, "solver timeout (s)")
 	fs.BoolVar(&debugPanics, "panic", false, "")
@@ -108,6 +109,14 @@ func cmdFunc(args []string) {
 			}
 			if *verbose || len(s.Failed) > 0 {
 				fmt.Printf("  %-8s %s  x%d %.2fs %s\n", status, s.Name, s.Instances, s.Secs, s.Solver)
+			}
+			if *dumpAll != "" && strings.Contains(s.Name, *dumpAll) {
+				os.MkdirAll("/tmp/hvdump", 0o755)
+				for _, ob := range rep.Obls {
+					if ob.Name == s.Name {
+						os.WriteFile("/tmp/hvdump/q.smt2", []byte(ob.Query), 0o644)
+					}
+				}
 			}
 			if len(s.Failed) > 0 && *dump != "" {
 				os.MkdirAll(*dump, 0o755)
